@@ -24,6 +24,9 @@ A spec is a JSON list of items
                                                uninterpreted: without arguments -> the parameter
                                                itself, with one argument -> `(th <arg>)` where the
                                                parameter is declared with a function type
+   "rename_expr": {"np.sum(Axy)": "sumAxy"}     optional: sub-expressions (ast.unparse text) -> parameter
+   "subexpr": "(dst - lag >= 0) * (dst - lag <= taumax)"   optional: translate only this sub-expression
+                                               of the selected statement (must occur in it)
   }
 
 and the generated file contains, for each item, the source text as a comment
@@ -43,7 +46,8 @@ The translation is purely syntactic (Python `ast`), with these idiom rules:
   float literals   -> exact decimal rationals  (0.1 -> (1/10 : Rat))
   x if c else y    -> if c then x else y
   comparisons / and / or / not -> decidable propositions (`ret` = "Bool" wraps
-                      them in `decide`)
+                      them in `decide`); `x in [c1, c2]` -> (x = c1 ∨ x = c2);
+                      NumPy's `(cmp) * (cmp)` -> conjunction
 
 Anything else raises, and the check reports that the obligation can no longer
 be generated (a broken tie, settled by the failing-input search).
@@ -178,9 +182,23 @@ class Tr:
         self.types = {p: t for p, t in item["params"]}
         self.rename = item.get("rename", {})
         self.calls = item.get("calls", {})
+        self.rename_expr = item.get("rename_expr", {})
 
     # returns (lean_text, type) with type in {"Int", "Rat", "Prop"}
     def tr(self, n):
+        # optional `rename_expr`: {"<ast.unparse text of a sub-expression>": "<param>"} treats that
+        # sub-expression (e.g. an array reduction `np.sum(A)`) as an opaque parameter
+        if getattr(self, "rename_expr", None):
+            try:
+                u = ast.unparse(n)
+            except Exception:  # noqa
+                u = None
+            if u in self.rename_expr:
+                d2 = self.rename_expr[u]
+                if d2 in self.types:
+                    t = self.types[d2]
+                    return d2, ("Rat" if t == "Rat" else "Int")
+                raise Untranslatable(f"rename_expr target {d2} not declared in params")
         d = dotted(n)
         if d is None and not isinstance(n, ast.Constant):
             # `rename` may also name a whole sub-expression by its source text as printed by
@@ -226,6 +244,9 @@ class Tr:
             # element-wise `&` / `|` of comparisons (NumPy boolean arrays read pointwise)
             if isinstance(n.op, (ast.BitAnd, ast.BitOr)) and ta == "Prop" and tb == "Prop":
                 return f"({a} {'∧' if isinstance(n.op, ast.BitAnd) else '∨'} {b})", "Prop"
+            # NumPy idiom `(a > 0) * (a <= b)`: product of comparisons = conjunction
+            if isinstance(n.op, ast.Mult) and ta == "Prop" and tb == "Prop":
+                return f"({a} ∧ {b})", "Prop"
             isint = lambda t: t in ("Int",)  # noqa
             if isinstance(n.op, (ast.Add, ast.Sub, ast.Mult)):
                 op = {ast.Add: "+", ast.Sub: "-", ast.Mult: "*"}[type(n.op)]
@@ -308,6 +329,21 @@ class Tr:
             parts = []
             left = n.left
             for op, right in zip(n.ops, n.comparators):
+                if isinstance(op, (ast.In, ast.NotIn)) and isinstance(right, (ast.List, ast.Tuple)) \
+                        and right.elts:
+                    # `x in [c1, c2]` -> (x = c1 ∨ x = c2)
+                    a, ta = self.tr(left)
+                    alts = []
+                    for el in right.elts:
+                        b, tb = self.tr(el)
+                        if ta == "Int" and tb == "Int":
+                            alts.append(f"({a} = {b})")
+                        else:
+                            alts.append(f"({self.rat(a, ta)} = {self.rat(b, tb)})")
+                    txt = "(" + " ∨ ".join(alts) + ")"
+                    parts.append(txt if isinstance(op, ast.In) else f"(¬ {txt})")
+                    left = right
+                    continue
                 a, ta = self.tr(left)
                 b, tb = self.tr(right)
                 sym = {ast.Lt: "<", ast.LtE: "≤", ast.Gt: ">", ast.GtE: "≥",
@@ -352,6 +388,21 @@ def translate_item(item, cache):
                 expr = getattr(expr, sub)
         if expr is None:
             raise Untranslatable("slice part absent")
+    sub = item.get("subexpr")     # select the first sub-expression whose ast.unparse text is this
+    if sub is not None:
+        want = ast.unparse(ast.parse(sub, mode="eval").body)
+        found = None
+        for node in ast.walk(expr if not isinstance(expr, ast.AugAssign) else expr.value):
+            if isinstance(node, ast.expr):
+                try:
+                    if ast.unparse(node) == want:
+                        found = node
+                        break
+                except Exception:  # noqa
+                    pass
+        if found is None:
+            raise Untranslatable(f"sub-expression `{sub}` not found in `{item['target']}`")
+        expr = found
     if isinstance(expr, ast.AugAssign):
         # `x op= e` is translated as the expression `x op e`
         expr = ast.BinOp(left=expr.target, op=expr.op, right=expr.value)
